@@ -3,6 +3,9 @@ package checks
 import (
 	"encoding/json"
 	"fmt"
+	"io/fs"
+	"os"
+	"path/filepath"
 	"strings"
 
 	"verif/fw"
@@ -30,6 +33,26 @@ type c01Case struct {
 	// fault); FaultStays: so is every later one.
 	Fault      int  `json:"fault,omitempty"`
 	FaultStays bool `json:"fault_stays,omitempty"`
+	// IndexFaultTxn > 0 (file store): just before the DATA of transaction number IndexFaultTxn
+	// (0-based) the disk "fills up" for the index of one mailbox - the mailbox of the
+	// IndexFaultPos-th (1-based) storable recipient of that transaction: index.gob.tmp in its
+	// directory is a symbolic link to /dev/full, so the index can be created and written into the
+	// buffer, and the flush fails with ENOSPC.  inbucket removes the link when it gives up, so the
+	// fault is gone at the client's retry.
+	IndexFaultTxn int `json:"index_fault_txn,omitempty"`
+	IndexFaultPos int `json:"index_fault_pos,omitempty"`
+}
+
+// c01IndexFiles lists the index files under the store directory.
+func c01IndexFiles(dir string) map[string]bool {
+	out := map[string]bool{}
+	_ = filepath.WalkDir(dir, func(p string, d fs.DirEntry, err error) error {
+		if err == nil && !d.IsDir() && d.Name() == "index.gob" {
+			out[p] = true
+		}
+		return nil
+	})
+	return out
 }
 
 func c01Spec(cas c01Case) sys.Spec {
@@ -103,7 +126,8 @@ func c01Exec(c *fw.Ctx, cas c01Case) (nontrivial bool) {
 		fail("helo", "HELO refused: "+r.String())
 		return
 	}
-	addCalls := 0 // AddMessage calls the unchanged server has made so far on this connection
+	addCalls := 0                 // AddMessage calls the unchanged server has made so far on this connection
+	boxDir := map[string]string{} // file store: mailbox name -> its directory, learnt from the first delivery
 	for ti, t := range cas.Txns {
 		if r := d.Cmd("MAIL FROM:<s@o.test>"); !r.OK {
 			fail("mail|no-reply", "no reply to MAIL: "+r.Why)
@@ -136,12 +160,60 @@ func c01Exec(c *fw.Ctx, cas c01Case) (nontrivial bool) {
 			if spec.AddFault != nil {
 				hitsBefore = spec.AddFault.Hits.Load()
 			}
+			var storable []string
+			for _, a := range envRcpts {
+				if pol.StoreRcpt(model.DomainOf(a)) {
+					storable = append(storable, a)
+				}
+			}
+			planted, plantedBox := "", ""
+			if cas.IndexFaultTxn > 0 && ti == cas.IndexFaultTxn && cas.IndexFaultPos <= len(storable) {
+				plantedBox = model.SimpleMailbox(cas.Naming, storable[cas.IndexFaultPos-1])
+				dir, ok := boxDir[plantedBox]
+				if !ok {
+					c.T.Fatalf("VERIF-INFRA directory of mailbox %q not learnt (case %+v)", plantedBox, cas)
+				}
+				planted = filepath.Join(dir, "index.gob.tmp")
+				if err := os.Symlink("/dev/full", planted); err != nil {
+					c.T.Fatalf("VERIF-INFRA symlink: %v", err)
+				}
+				d.Log = append(d.Log, "   (environment: the disk is full for the index of mailbox "+plantedBox+")")
+			}
+			before := map[string]bool{}
+			if cas.IndexFaultTxn > 0 {
+				before = c01IndexFiles(s.StoreH.Dir)
+			}
 			mid, fin := d.Data(body)
 			if mid.Code == 354 && !fin.OK {
 				fail("data|no-reply", "no reply after the terminating dot: "+fin.Why)
 				return
 			}
-			if spec.AddFault != nil && spec.AddFault.Hits.Load() > hitsBefore && mid.Code == 354 && fin.Class() != 2 {
+			faultHit := spec.AddFault != nil && spec.AddFault.Hits.Load() > hitsBefore
+			failPos := -1 // position among the storable recipients of the copy that failed
+			if planted != "" {
+				if _, err := os.Lstat(planted); err != nil {
+					faultHit = true // the store used (and cleared away) the link
+					c.Count("index_write_faults_hit", 1)
+				} else {
+					_ = os.Remove(planted)
+					c.Count("index_write_faults_not_reached", 1)
+				}
+				for i, a := range storable {
+					if model.SimpleMailbox(cas.Naming, a) == plantedBox {
+						failPos = i
+						break
+					}
+				}
+			} else if spec.AddFault != nil {
+				for i := range storable {
+					n := addCalls + i + 1
+					if n == cas.Fault || (cas.FaultStays && n > cas.Fault) {
+						failPos = i
+						break
+					}
+				}
+			}
+			if faultHit && mid.Code == 354 && fin.Class() != 2 {
 				// The store refused a delivery and the transaction was refused (451): "a transaction
 				// that is refused adds nothing to any mailbox".
 				names := []string{"a", "b", "a@keep.test", "b@keep.test", "keep.test"}
@@ -153,12 +225,9 @@ func c01Exec(c *fw.Ctx, cas c01Case) (nontrivial bool) {
 				// copy for each storable recipient that precedes the failure, nothing else - is the
 				// recorded finding; anything else (a second copy, a later recipient) is reported as is.
 				var part []sys.Expect
-				for _, a := range envRcpts {
-					if !pol.StoreRcpt(model.DomainOf(a)) {
-						continue
-					}
+				for i, a := range storable {
 					addCalls++
-					if addCalls == cas.Fault || (cas.FaultStays && addCalls > cas.Fault) {
+					if i == failPos {
 						break
 					}
 					part = append(part, sys.Expect{Mailbox: model.SimpleMailbox(cas.Naming, a), From: envFrom, To: envRcpts, Subject: subject, Data: body})
@@ -182,6 +251,13 @@ func c01Exec(c *fw.Ctx, cas c01Case) (nontrivial bool) {
 				}
 				if len(exp) > 0 {
 					nontrivial = true
+				}
+				if cas.IndexFaultTxn > 0 && len(exp) == 1 {
+					for p := range c01IndexFiles(s.StoreH.Dir) {
+						if !before[p] {
+							boxDir[exp[0].Mailbox] = filepath.Dir(p)
+						}
+					}
 				}
 			}
 		case "RSET", "EHLO":
@@ -338,6 +414,47 @@ func c01FaultRun(c *fw.Ctx) {
 							if nt {
 								c.Nontrivial(1)
 							}
+						}
+					}
+					if be != "file" {
+						continue
+					}
+					if fi, err := os.Stat("/dev/full"); err != nil || fi.Mode()&os.ModeCharDevice == 0 {
+						c.NotExhaustive("no /dev/full on this machine: the index-write fault cannot be injected")
+						continue
+					}
+					// the disk fills up for the index of the mailbox of the k-th storable recipient
+					pol := c01Policy(c01Case{Policy: "store-default"})
+					var setup []c01Txn
+					seen := map[string]bool{}
+					nStorable := 0
+					for _, ri := range rs {
+						if !pol.StoreRcpt(model.DomainOf(c01Pool[ri])) {
+							continue
+						}
+						nStorable++
+						if mb := model.SimpleMailbox(naming, c01Pool[ri]); !seen[mb] {
+							seen[mb] = true
+							setup = append(setup, c01Txn{[]int{ri}, "DATA-plain"})
+						}
+					}
+					for k := 1; k <= nStorable; k++ {
+						n++
+						if !c.Mine(n) {
+							continue
+						}
+						if c.Expired() {
+							return
+						}
+						txns := append(append([]c01Txn{}, setup...), c01Txn{rs, term}, c01Txn{rs, "DATA-plain"})
+						cas := c01Case{Naming: naming, Policy: "store-default", Backend: be, IndexFaultTxn: len(setup), IndexFaultPos: k, Txns: txns}
+						if !c.Begin(func() any { return cas }) {
+							continue
+						}
+						var nt bool
+						c.Guard(be, cas, func() { nt = c01Exec(c, cas) })
+						if nt {
+							c.Nontrivial(1)
 						}
 					}
 				}
